@@ -56,6 +56,9 @@ def generic_check(ctx, mod):
     cm.regen_tables(ctx.log)
     if hasattr(mod, "pre_build"):
         mod.pre_build(ctx)
+    okm, outm = cm.coq_make(["theories/Check_%s.vo" % ctx.pid], ctx.log)
+    if not okm:
+        raise RuntimeError("the model cone theories/Check_%s.vo does not compile" % ctx.pid)
     obl = cm.check_obligations(ctx.pid, ctx.log)
     bad_axioms = sorted({a for v in obl["assumptions"].values() for a in v
                          if a.split(".")[-1] not in {x.split(".")[-1] for x in cm.ALLOWED_AXIOMS}
